@@ -32,12 +32,22 @@ def tableCase : Case :=
   let s := (List.range 256).map fun i => hex32 (Spec.crcFeedByte 0#32 i).toNat
   { op := "crctable", model := " ".intercalate t, spec := some (" ".intercalate s), tag := "table" }
 
+def seqCase (msgs : List Bytes) : Case :=
+  { op := "crcseq", args := [("msgs", jarr (msgs.map jhex))],
+    model := " ".intercalate (msgs.map fun b => hex32 (computeCRC32 b).toNat),
+    spec := some (" ".intercalate (msgs.map fun b => hex32 (Spec.crc b).toNat)), tag := "one-buffer-reused" }
+
 def sortedCuts (n k : Nat) : Gen (List Nat) := do
   let cs ← genList k (randBelow (n + 1))
   return (cs.toArray.qsort (· < ·)).toList
 
 def run (t : Tier) : Emit Unit := do
   emit "C10" tableCase
+  -- messages of equal length written one after the other into the same buffer, repeats included
+  for _ in [0:(if t.quick then 20 else 200)] do
+    let n ← liftGen (randRange 1 64)
+    let a ← liftGen (randBytes n); let b ← liftGen (randBytes n); let c ← liftGen (randBytes n)
+    emit "C10" (seqCase [a, b, a, a, c, b])
   -- all messages of length 0..2 (length 2 only in the thorough tier; quick samples 2000 of them)
   emit "C10" (crcCase [] [] "len0")
   for b in [0:256] do emit "C10" (crcCase [b] [] "len1")
